@@ -22,8 +22,10 @@ enum { D_ADD = 1, D_REMOVE_ALL, D_REMOVE_DEPTH, D_RELEASE_REMOVE, D_RESTRICT, D_
 struct dop { int kind, a, b, c, d; };
 struct dhist { int root; int n; struct dop ops[5]; };
 
-static const char *ROOTS[] = { "pu:4", "node:4 pu:1", "node:2 core:2 pu:1", "package:2 core:2 pu:2", "@io.xml", "@annot.xml" };
-#define NROOTS 6
+/* a leading '!' loads the root with NO_DISTANCES|NO_MEMATTRS|NO_CPUKINDS: the flags stop the backends, structures added by the
+ * user are live all the same and must follow the objects (restrict, Group insertion, refresh) like any other */
+static const char *ROOTS[] = { "pu:4", "node:4 pu:1", "node:2 core:2 pu:1", "package:2 core:2 pu:2", "@io.xml", "@annot.xml", "!pu:4", "!node:2 core:2 pu:1" };
+#define NROOTS 8
 static const char *NAMES[] = { NULL, "a", "b" };
 static const unsigned long KINDS[] = { HWLOC_DISTANCES_KIND_FROM_USER | HWLOC_DISTANCES_KIND_VALUE_LATENCY, HWLOC_DISTANCES_KIND_FROM_OS | HWLOC_DISTANCES_KIND_VALUE_BANDWIDTH,
                                        HWLOC_DISTANCES_KIND_VALUE_HOPS, /* invalid: */ 0, HWLOC_DISTANCES_KIND_VALUE_LATENCY | HWLOC_DISTANCES_KIND_VALUE_BANDWIDTH,
@@ -75,7 +77,8 @@ static hwloc_topology_t load_root(int r)
 {
   struct usrc s; struct ucfg c; hwloc_topology_t t;
   ucfg_keepall(&c);
-  if (ROOTS[r][0] == '@') { static char path[512]; snprintf(path, sizeof(path), "%s/harness/fixtures/%s", univ_verif(), ROOTS[r] + 1); s.kind = USRC_XMLFILE; s.text = path; s.name = (char *)ROOTS[r]; s.len = 0; }
+  if (ROOTS[r][0] == '!') { c.flags |= HWLOC_TOPOLOGY_FLAG_NO_DISTANCES | HWLOC_TOPOLOGY_FLAG_NO_MEMATTRS | HWLOC_TOPOLOGY_FLAG_NO_CPUKINDS; s.kind = USRC_SYNTHETIC; s.text = (char *)ROOTS[r] + 1; s.name = (char *)ROOTS[r]; s.len = 0; }
+  else if (ROOTS[r][0] == '@') { static char path[512]; snprintf(path, sizeof(path), "%s/harness/fixtures/%s", univ_verif(), ROOTS[r] + 1); s.kind = USRC_XMLFILE; s.text = path; s.name = (char *)ROOTS[r]; s.len = 0; }
   else { s.kind = USRC_SYNTHETIC; s.text = (char *)ROOTS[r]; s.name = s.text; s.len = 0; }
   if (univ_load(&t, &s, &c) < 0) return NULL;
   return t;
